@@ -35,6 +35,7 @@ type Engine struct {
 	contractFile string
 	uninterpSpec map[string]bool
 	tableFacts   []*TableFact
+	typeInvs     []*TableFact
 }
 
 type globalInfo struct {
@@ -123,6 +124,15 @@ func loadEngine(repo string, tags string, contractPath string) (*Engine, error) 
 		expr, err := e.checkExpr(tf.Cl.Src, cfile.End(), []string{"c int"}, tf.Info, true)
 		if err != nil {
 			return nil, fmt.Errorf("tablefact %s: %v", tf.Global, err)
+		}
+		tf.Cl.Expr = expr
+	}
+	for _, tf := range e.typeInvs {
+		tf.Info = &types.Info{Types: map[ast.Expr]types.TypeAndValue{}, Uses: map[*ast.Ident]types.Object{}, Defs: map[*ast.Ident]types.Object{},
+			Selections: map[*ast.SelectorExpr]*types.Selection{}, Instances: map[*ast.Ident]types.Instance{}}
+		expr, err := e.checkExpr(tf.Cl.Src, cfile.End(), []string{"v " + tf.Global}, tf.Info, true)
+		if err != nil {
+			return nil, fmt.Errorf("typeinv %s: %v", tf.Global, err)
 		}
 		tf.Cl.Expr = expr
 	}
